@@ -8,12 +8,14 @@ Transcribed from
   include/adept/BinaryOperation.h  value_with_len_ of BinaryOperation, BinaryOpScalarLeft, BinaryOpScalarRight and the
                                `operation` of Add, Subtract, Multiply, Divide, Max, Min on `int`s (`end` arithmetic and
                                integer-vector expressions in index position: `EndExpr`, `VExpr`)
-  include/adept/Array.h        operator()(ranged ...) / update_index, operator()(all scalar),
-                               operator[], subset, T / in_place_transpose, permute, diag_vector,
+  include/adept/Array.h        operator()(ranged ...) / update_index, operator()(all scalar: the element accessors of
+                               rank 1…7, const and non-const; `elemOffset` / `elemAccess`),
+                               operator[], subset, T / in_place_transpose, permute (three overloads), diag_vector,
                                submatrix_on_diagonal, reshape, soft_link, is_contiguous, empty,
                                pack_row_major_contiguous_ / pack_column_major_,
                                the two view constructors `Array(Type*, Storage*, dims, offset)` and
                                `Array(const Type*, Index, dims, offset, gradient_index)` (`View.canon`)
+  include/adept/FixedArray.h   operator()(all scalar): the element accessors in Horner form (`fixedElemGo` / `fixedElemAccess`)
 
 Every member that returns a view computes (`data_`, `dimensions_`, `offset_`) of the result — the `…Raw` functions
 below — and hands them to one of the two view constructors, which (F-76) end with the loop "if any of the dimensions
@@ -499,6 +501,63 @@ def expandAll (checked : Bool) (v : View) : List Op → List Int → List Int
     match apply checked v op with
     | .ok w => expandOp v op (expandAll checked w ops ix)
     | .error _ => []
+
+/-! ### ELEMENT access: `operator()(i0,…,i_{R-1})` with only scalar arguments
+
+Array.h has one such accessor per rank 1…7 and per const-ness (`operator()(I0 i0, …)` and `… const`, 14 functions,
+plus the rank-1 `operator[]` pair and the active rank-1 versions); every one is the sum
+`get_index_with_len(i0,dimensions_[0])*offset_[0] + … + get_index_with_len(i_{R-1},dimensions_[R-1])*offset_[R-1]`
+handed to `get_scalar_reference` (`data_[offset]`, for an active array also `gradient_index()+offset`).
+FixedArray.h has its own 14 (+ rank-1 `operator[]`) accessors, written in HORNER form over the static extents:
+`J2*(J1*get_index_with_len(i0,J0) + get_index_with_len(i1,J1)) + get_index_with_len(i2,J2)` (rank 3).
+In both, index `k` is resolved (`end` arithmetic) and, in the bounds-checking build, range-tested against the length
+of dimension `k` — its OWN dimension.  The result is a reference to one element: here the element offset from the
+start of the parent allocation (a rank-0 "view"). -/
+
+/-- the indices an element access uses: argument `k` resolved against the length of dimension `k` -/
+def resolveAll : List Nat → List EndExpr → List Int
+  | d :: ds, e :: es => e.resolve d :: resolveAll ds es
+  | _, _ => []
+
+/-- Array.h, `operator()(I0 i0, …, I_{R-1} i_{R-1})` (const and non-const, passive and active, every rank): the sum
+    of `get_index_with_len(i_k,dimensions_[k])*offset_[k]` -/
+def elemOffset (checked : Bool) : List Nat → List Int → List EndExpr → Except Err Int
+  | [], [], [] => .ok 0
+  | d :: ds, s :: ss, e :: es => do
+      let j ← getIndexWithLen checked e d
+      let rest ← elemOffset checked ds ss es
+      .ok (j * s + rest)
+  | _, _, _ => .error .bad_rank
+
+/-- the element an all-scalar `Array::operator()` refers to: offset of `data_[…]` from the parent allocation -/
+def elemAccess (v : View) (es : List EndExpr) (checked : Bool) : Except Err Int := do
+  if v.dims = [] then .error .bad_rank else
+  let o ← elemOffset checked v.dims v.strides es
+  .ok (v.base + o)
+
+/-- FixedArray.h, `operator()(I0 i0, …)`: the Horner accumulation `acc ↦ J_k*acc + get_index_with_len(i_k,J_k)`
+    over the static extents `J0,J1,…` (rank 1: `get_index_with_len(i0,J0)`; rank 2:
+    `get_index_with_len(i0,J0)*J1 + get_index_with_len(i1,J1)`; rank 3: `J2*(J1*g0 + g1) + g2`; …) -/
+def fixedElemGo (checked : Bool) : Int → List Nat → List EndExpr → Except Err Int
+  | acc, [], [] => .ok acc
+  | acc, d :: ds, e :: es => do
+      let j ← getIndexWithLen checked e d
+      fixedElemGo checked ((d : Int) * acc + j) ds es
+  | _, _, _ => .error .bad_rank
+
+/-- the element an all-scalar `FixedArray::operator()` refers to (`data_` of a FixedArray is the start of the
+    allocation) -/
+def fixedElemAccess (dims : List Nat) (es : List EndExpr) (checked : Bool) : Except Err Int :=
+  if dims = [] then .error .bad_rank else fixedElemGo checked 0 dims es
+
+/-- the element as a rank-0 view (what the driver prints) -/
+def elemView (a : Int) : View := ⟨a, [], []⟩
+
+/-- `Array::permute(Index i0, Index i1, Index i2 = -1, …)` (Array.h / FixedArray.h, the overload with separate
+    arguments): "Incorrect number of dimensions provided to permute" when one of the first `Rank` arguments is -1,
+    then `permute(idim)`.  `permute(const ExpressionSize<Rank>&)` is `permute(&idim[0])`. -/
+def permuteArgs (v : View) (p : List Int) : Except Err View :=
+  if p.any (· == -1) then .error .invalid_dimension else permute v p
 
 /-! ### enumeration of a view (for the driver) -/
 
